@@ -10,6 +10,9 @@ import tlc
 import tracecheck
 
 QUANTIZED = ('DataVolume',)
+# a user type whose unit symbols contain a blank (like 'oz t', 'fl oz'): declared in the stage process, known to the
+# specification through the symbol table like every other unit
+BLANKY = [dict(s='bq', t='Blanky', f=[[1, 1]]), dict(s='oz t', t='Blanky', f=[[3, 100]]), dict(s='fl oz', t='Blanky', f=[[1, 4]])]
 
 
 def spec_symbols():
@@ -29,7 +32,7 @@ def spec_symbols():
 def number_cases(tab, quick, rnd):
     cs = []
     units = [u['s'] for u in tab if u['t'] not in QUANTIZED]
-    pick = ['m', 'km', 'um', 'm2', 'km/h', 'm/s2', 'kWh', 'degC', 'J/m', 'lb', 'mps2', 'B/s', 'Kib/s', 'ms']
+    pick = ['m', 'km', 'um', 'm2', 'km/h', 'm/s2', 'kWh', 'degC', 'J/m', 'lb', 'mps2', 'B/s', 'Kib/s', 'ms', 'oz t', 'fl oz']
     vals = []
     for n in (0, 1, -1, 7, 10 ** 30, -10 ** 30 + 1, 123456789012345678901234567890):
         vals.append(('int', F(n)))
@@ -67,15 +70,19 @@ def string_cases(tab, quick, rnd):
                'abc', '1m', '1,5', '0x10', 'inf', 'nan', 'NaN', '1/0', '-3/0', '1.5/2', '1/2/3', '1 /3', '', 'one', '1\tm', '١٢']
     forms = ['{a} {s}', '  {a} {s}', '{a}   {s}', '{a} {s}  ', '{a}{s}', '{a} {s} {s}', '{a}', '{a} ', '{s}', '{a} {s}x', '{s} {a}', ' ']
     for a in amounts:
-        for s in (syms if not quick else syms[:6]):
+        for s in (syms if not quick else syms[:6]) + (['oz t', 'fl oz', 'bq'] if a in ('1', '12.5', '1/3', '1e3', 'abc', '-7e-3') else []):
             for form in (forms if (not quick or a in ('1', '1/3', '1e3', 'abc')) else forms[:5]):
                 text = form.format(a=a, s=actual(s))
                 for cls in ('Quantity', tab_type(tab, s), 'Mass'):
                     cs.append(dict(op='str', codes=[ord(ch) for ch in text], cls=cls))
     # parse with explicit other unit = parse then convert
     for (s, to) in (('km', 'm'), ('m', 'km'), ('in', 'cm'), ('mi', 'm'), ('km/h', 'm/s'), ('kWh', 'J'), ('m2', 'ha'), ('m', 's'),
-                    ('lb', 'kg'), ('h', 'min')):
-        for a in ('1', '2.5', '-1/3', '1e3', '0'):
+                    ('lb', 'kg'), ('h', 'min'), ('oz t', 'bq'), ('fl oz', 'oz t'), ('bq', 'fl oz'),
+                    # units of equal scale are still different units
+                    ('l', 'dm3'), ('dm3', 'l'), ('J', 'Nm'), ('Ws', 'J'),
+                    # table-converted: every amount through the formula, whatever was parsed before
+                    ('degC', 'degF'), ('degC', 'K'), ('degF', 'K'), ('K', 'degC'), ('degF', 'degC'), ('degC', 'degC')):
+        for a in ('1', '2.5', '-1/3', '1e3', '0', '-40', '100'):
             cs.append(dict(op='strunit', codes=[ord(ch) for ch in '%s %s' % (a, actual(s))], to=to))
     # all short strings over a small alphabet (classification by the specification)
     alphabet = '012./-e mX+'
@@ -85,6 +92,21 @@ def string_cases(tab, quick, rnd):
         words = rnd.sample(words, 2500)
     for w in words:
         cs.append(dict(op='str', codes=[ord(ch) for ch in w + ' m'] if ' ' not in w else [ord(ch) for ch in w], cls='Quantity'))
+    return cs
+
+
+def directory_cases(tab):
+    """Amount-and-symbol strings for every predefined symbol (and the blank-containing user symbols): the quantity is
+    of the type owning the symbol and has exactly that unit (the string half of C15)."""
+    from adapters.catalogue import actual
+    cs = []
+    for k, u in enumerate(tab):
+        if u['t'] in QUANTIZED:
+            continue
+        for a in (('3', '-1/3') if k % 2 else ('2.5', '1e3')):
+            text = '%s %s' % (a, actual(u['s']))
+            for cls in ('Quantity', u['t']):
+                cs.append(dict(op='str', codes=[ord(ch) for ch in text], cls=cls))
     return cs
 
 
@@ -100,6 +122,11 @@ def _stage(cs):
     qvimport.install('guard')
     import quantity.predefined  # noqa: F401
     from adapters import text
+    from adapters.calc import mk_amount
+    from quantity import Quantity, QuantityMeta
+    blanky = QuantityMeta('Blanky', (Quantity,), {}, ref_unit_symbol='bq')
+    for u in BLANKY[1:]:
+        blanky.new_unit(u['s'], None, mk_amount(u['f'][0], 'dec') * blanky.ref_unit)
 
     def one(c):
         return text.run_case(c), qvimport.drain_div_events()
@@ -183,7 +210,7 @@ def run(ctx):
                 'accept / reject / unspecified and computes the exact value on big naturals.')
     ctx.assumptions = ['digit-level rendering of amounts is checked through the round trip and the specification\'s own '
                        'parse of str(q), not specified digit by digit', 'quantized types are covered by C05 / C08']
-    tab = spec_symbols()
+    tab = spec_symbols() + BLANKY
     r = tlc.run('CatalogueLaws', cfg_file='CatalogueLaws.cfg', tag='CatalogueLaws', workers=4)
     ctx.add_tlc(r, 'CatalogueLaws (symbol / scale table used for parsing with units)', exhaustive=True)
     dup = [dict(op='dupsym', u=u, how=h) for u in ('a', 'm', 'km/h', 'um', 'K') for h in ('scaled', 'plain')]
@@ -211,4 +238,4 @@ def replay(ctx, rp):
     if rp['replay'].get('kind') in ('money', 'money-plain'):
         from checks import c09
         return c09.replay(ctx, rp)
-    judge(ctx, [dict(rp['replay']['case'])], 'replay', spec_symbols())
+    judge(ctx, [dict(rp['replay']['case'])], 'replay', spec_symbols() + BLANKY)
